@@ -10,7 +10,7 @@ LEAN_MODULES = ["ShootVerif.Props.C13", "ShootVerif.Props.C13Facts"]
 USES_FACTS = True
 DRIVER = "shootmodel_new"
 MANIFEST = dict(
-    text="Lean 4 theorems over a model of the -opt output (AllList/DefaultList of new.go, With/option/SetDefault of constructor.tmpl) and of runtime shoot.NewWith: With/NewWith = SetDefault then the options folded left to right (C13_fold), final value of every field = last option for it, else its default, else the previous content, for ALL default lists, option sequences and receivers (C13_last_wins, C13_later_overrides), each option touches one field (C13_one_field, C13_frame), option functions exist for exactly the visible non-skipped leaves (C13_options_are_visible_leaves). Tied to the code by generating struct packages, running the rebuilt `shoot new -opt [-short]` (also spelled -option, flags in both orders), compiling, and executing all option sequences up to length 4 through shoot.NewWith and T.With on a dirtied receiver, reading every leaf back by reflection; since round 7 the sequences also hold options called with the ZERO value of their parameter type (nil pointers, slices and maps, 0, \"\", false: `Val.zero` in the model), alone, before and after a non-zero call of the same option. Since the second seeding round: C13_alloc_chain / C13_alloc_lookup (AllocMap scan = struct-derived pointer chains); execution uses allocating defaults (slice/map/pointer literals) and scribbles every produced instance in place so that shared default values show, multi-type invocations (companion type first, with -getset where neutral), and the -file= selection mode.",
+    text="Lean 4 theorems over a model of the -opt output (AllList/DefaultList of new.go, With/option/SetDefault of constructor.tmpl) and of runtime shoot.NewWith: With/NewWith = SetDefault then the options folded left to right (C13_fold), final value of every field = last option for it, else its default, else the previous content, for ALL default lists, option sequences and receivers (C13_last_wins, C13_later_overrides), each option touches one field (C13_one_field, C13_frame), option functions exist for exactly the visible non-skipped leaves (C13_options_are_visible_leaves), and the parameter type of each is the type of the field it sets (C13_option_types, over the model of makeNew's name-keyed TypeMap, Model/TypeMap.lean). Tied to the code by generating struct packages, running the rebuilt `shoot new -opt [-short]` (also spelled -option, flags in both orders), compiling, and executing all option sequences up to length 4 through shoot.NewWith and T.With on a dirtied receiver, reading every leaf back by reflection; since round 7 the sequences also hold options called with the ZERO value of their parameter type (nil pointers, slices and maps, 0, \"\", false: `Val.zero` in the model), alone, before and after a non-zero call of the same option. Since the second seeding round: C13_alloc_chain / C13_alloc_lookup (AllocMap scan = struct-derived pointer chains); execution uses allocating defaults (slice/map/pointer literals) and scribbles every produced instance in place so that shared default values show, multi-type invocations (companion type first, with -getset where neutral), and the -file= selection mode.",
     note="Lean kernel + standard axioms; the state is keyed by field name (Go selector semantics validated by execution); option values are sentinels per call position; reflection/unsafe used to dirty receivers.",
     technique="Lean 4 proof (list-fold lemmas, last-writer-wins) + exhaustive small-scope execution of generated option functions",
     design="5/C13")
